@@ -766,7 +766,7 @@ fn enc_thmtx(rng: &mut Rng, h: &Hm, gs: &[G]) -> Vec<u8> {
 }
 
 /// Brotli stream of stored (uncompressed) meta-blocks, RFC 7932 section 9
-fn brotli_stored(data: &[u8]) -> Vec<u8> {
+pub fn brotli_stored(data: &[u8]) -> Vec<u8> {
     let mut out = vec![];
     let (mut acc, mut nbits) = (0u64, 0u32);
     let put = |out: &mut Vec<u8>, v: u64, n: u32, acc: &mut u64, nbits: &mut u32| {
